@@ -1,6 +1,7 @@
 import HdModel.Model.Util
 import HdModel.Model.DnsDriver
 import HdModel.Model.SniDriver
+import HdModel.Model.SniffDriver
 /-! Line-protocol driver.  One case per line:
       `<stream> <input tokens…> | <implementation observation tokens…>`
     Output, one line per case:
@@ -16,6 +17,7 @@ def handle (line : String) : String :=
     match inp with
     | "dns" :: rest => Dns.driverLine rest obs
     | "sni" :: rest => Sni.driverLine rest obs
+    | "sniff" :: rest => Sniff.driverLine rest obs
     | _ => (false, false, "unknown-stream", "")
   s!"{boolTok r.1} {boolTok r.2.1} {r.2.2.1} | {r.2.2.2}"
 
